@@ -109,19 +109,32 @@ func (t stime) strings() [5]string {
 	return r
 }
 
-// realTimeAgrees checks once per process that formatTime is what the real RealTime.DateString
-// prints (the real one cannot be given an instant).
-func realTimeAgrees() bool {
-	for i := 0; i < 5; i++ {
-		a := time.Now()
-		y, m, d, h, f := utils.RealTime{}.DateString()
-		b := time.Now()
-		if a.Unix() != b.Unix() {
-			continue
+// realTimeDisagreement checks that formatTime is what the real RealTime.DateString prints (the real one
+// cannot be given an instant, so it is asked for "now" between two readings of the same second) in
+// several host time zones: the partition components <yyyy>/<mm>/<dd>/<hh> and the 14-digit stamp must
+// describe the same local second whatever the zone is.  Returns "" or a description of the difference.
+func realTimeDisagreement() string {
+	saved := time.Local
+	defer func() { time.Local = saved }()
+	zones := []*time.Location{time.UTC, time.FixedZone("plus2", 2*3600), time.FixedZone("minus8", -8*3600),
+		time.FixedZone("plus0530", 5*3600+1800), time.FixedZone("plus13", 13*3600)}
+	for _, z := range zones {
+		time.Local = z
+		ok := false
+		for i := 0; i < 50 && !ok; i++ {
+			a := time.Now()
+			y, m, d, h, f := utils.RealTime{}.DateString()
+			b := time.Now()
+			if a.Unix() != b.Unix() {
+				continue
+			}
+			ok = true
+			if want, got := formatTime(a), [5]string{y, m, d, h, f}; want != got {
+				return fmt.Sprintf("host zone %s: RealTime.DateString() = %v, the key format needs %v (year, month, day, hour and stamp of one local instant)", z, got, want)
+			}
 		}
-		return formatTime(a) == [5]string{y, m, d, h, f}
 	}
-	return false
+	return ""
 }
 
 // ---------- observations ----------
@@ -854,8 +867,11 @@ func validCase(c scase) string {
 
 func init() {
 	core.Register(core.Component{Name: "S3", Replay: replay, Run: func(rng *rand.Rand, n int, corpusDir string, rep *core.Report) string {
-		if !realTimeAgrees() {
-			panic("S3 harness: utils.RealTime.DateString no longer formats like the harness' clock (formatTime)")
+		if d := realTimeDisagreement(); d != "" {
+			// the production clock of the S3 key (every case below injects its own clock, which formats
+			// like the real one is supposed to)
+			rep.Violations = append(rep.Violations, core.Violation{Property: "C12", Signature: "key-format/real-time-source",
+				What: d, Case: map[string]string{"mode": "real-time-source", "what": d}})
 		}
 		cases := loadCorpus(corpusDir)
 		for i := 0; i < n; i++ {
